@@ -37,6 +37,32 @@ static void g711_container (const Fmt *f, int law)
 					vl_violation (sig ("g711|%s|encode", rt_fam (f)), "short %d encoded as 0x%02x, G.711 gives 0x%02x", in [i], dev.data [off + i], e) ;
 				}
 		}
+	/* the other sample-type entries of the encoder: int carries the short in its upper half (all 65536 values); float and double
+	** (normalisation off, value = the short itself) round to the codec's 14-bit (mu-law) / 12-bit (A-law) input grid, so they are
+	** compared on that grid, where no rounding rule is involved */
+	{	unsigned char *first = malloc (dev.len + 1) ; sf_count_t first_len = dev.len ; memcpy (first, dev.data, dev.len) ;
+		for (int type = T_INT ; type < T_NTYPES ; type++)
+		{	void *buf = malloc (65536 * 8) ; long ebad = 0 ; int grid = type == T_INT ? 1 : law ? 16 : 4 ;
+			for (int i = 0 ; i < 65536 ; i++)
+				switch (type) { case T_INT : ((int *) buf) [i] = (int) ((unsigned) in [i] << 16) ; break ; case T_FLOAT : ((float *) buf) [i] = in [i] ; break ; default : ((double *) buf) [i] = in [i] ; break ; }
+			md_reset (&dev) ; rt_info (&info, f, 1, 8000) ; sf = md_open (&dev, SFM_WRITE, &info) ;
+			if (sf)
+			{	INLIB (sf_command (sf, SFC_SET_NORM_FLOAT, NULL, SF_FALSE)) ; INLIB (sf_command (sf, SFC_SET_NORM_DOUBLE, NULL, SF_FALSE)) ;
+				vl_write (sf, type, 0, buf, 65536) ; INLIB (sf_close (sf)) ;
+				if (dev.len != first_len) vl_violation (sig ("g711|%s|encode-%s", rt_fam (f), type_names [type]), "file length %lld differs from the short-entry file's %lld", (long long) dev.len, (long long) first_len) ;
+				else
+					for (int i = 0 ; i < 65536 ; i++)
+					{	unsigned e = law ? ref_alaw_encode (in [i]) : ref_ulaw_encode (in [i]) ; sf_count_t at = dev.len - 65536 + i ;
+						if (in [i] % grid) continue ;
+						if (at >= 0 && dev.data [at] != e && ebad ++ == 0)
+							vl_violation (sig ("g711|%s|encode-%s", rt_fam (f), type_names [type]), "%s entry: value %d encoded as 0x%02x, G.711 gives 0x%02x", type_names [type], in [i], dev.data [at], e) ;
+						}
+				oh = vl_hash (dev.data, dev.len, oh) ;
+				}
+			free (buf) ;
+			}
+		md_set (&dev, first, first_len) ; free (first) ;
+		}
 	for (int type = 0 ; type < T_NTYPES ; type++)
 		for (int norm = (type >= T_FLOAT ? 0 : 1) ; norm < 2 ; norm++)
 		{	SF_INFO ri ; void *out = malloc (65536 * 8) ; md_rewind (&dev) ; rt_info_read (&ri, f, 1, 8000) ;
